@@ -26,7 +26,9 @@ def lengths(rng: random.Random, k: int, maxlen: int = 4096) -> list[int]:
     return out[:k]
 
 
-UNI_SAMPLES = ["", "a", "hello", "ab\u0000", "\u0000", "\u0000\u0000x\u0000\u0000", " x \t\n ", "\ufeffbom", "käse", "€uro", "日本語", "\U0001F600", "a\u0000b", "߿ࠀ￿\U00010000\U0010ffff"]
+UNI_SAMPLES = ["", "a", "hello", "ab\u0000", "\u0000", "\u0000\u0000x\u0000\u0000", " x \t\n ", "\ufeffbom", "käse", "€uro", "日本語", "\U0001F600", "a\u0000b", "߿ࠀ￿\U00010000\U0010ffff",
+               # text that is not in a Unicode normal form (the wire carries the code points given, whatever form they are in)
+               "e\u0301", "n\u0303o", "\u212b", "\u1100\u1161\u11a8", "\U0001d15e", "\u0041\u030a\u00c5\u212b", "\ufb01"]
 
 
 def valid_values(ty: int, rng: random.Random, k: int, depth: int = 0, avp_pool=None) -> list[str]:
@@ -71,6 +73,7 @@ def valid_values(ty: int, rng: random.Random, k: int, depth: int = 0, avp_pool=N
             out.append("b:" + rand_bytes(rng, n).hex())
     elif ty == T_UTF8:
         out = ["s:" + s.encode("utf8").hex() for s in UNI_SAMPLES]
+        rng.shuffle(out)                 # (more samples than most callers ask for: every caller gets a different selection)
         while len(out) < k:
             n = rng.randrange(0, 40)
             s = "".join(chr(rng.choice([rng.randrange(0x20, 0x7f), rng.randrange(0xa0, 0x800),
